@@ -336,7 +336,8 @@ class PermutationVariable(Variable):
         return lb.tolist(), ub.tolist()
 
     def correct(self, value: tuple | list | np.ndarray) -> list[int]:
-        return np.argsort(value).tolist()
+        # rank transform: idempotent, and the identity on index permutations
+        return np.argsort(np.argsort(value)).tolist()
 
     def decode(self, value: tuple | list | np.ndarray) -> Any:
         value = self.correct(value)
